@@ -386,6 +386,18 @@ fn is_valid_package_type(package_type: &str) -> bool {
             .all(|c| c.is_ascii_alphanumeric() || ALLOWED_SPECIAL_CHARS.contains(&c))
 }
 
+/// Check whether `c` differs from its lowercase mapping.
+///
+/// This is not the same as [`char::is_uppercase`]: titlecase letters like 'ǅ' are
+/// not uppercase but still have a distinct lowercase form.
+fn changes_when_lowercased(c: char) -> bool {
+    if c.is_ascii() {
+        c.is_ascii_uppercase()
+    } else {
+        !c.to_lowercase().eq([c])
+    }
+}
+
 /// Try to convert a `SmallString` to lowercase without allocating.
 fn lowercase_in_place(s: &mut SmallString) {
     enum State {
@@ -395,7 +407,7 @@ fn lowercase_in_place(s: &mut SmallString) {
     }
     let mut state = State::Lower;
     for c in s.chars() {
-        if c.is_uppercase() {
+        if changes_when_lowercased(c) {
             if c.is_ascii() {
                 state = State::MixedAscii;
             } else {
@@ -424,7 +436,7 @@ fn copy_as_lowercase(s: &str) -> SmallString {
     }
     let mut state = State::Lower;
     for c in s.chars() {
-        if c.is_uppercase() {
+        if changes_when_lowercased(c) {
             if c.is_ascii() {
                 state = State::MixedAscii;
             } else {
